@@ -552,7 +552,7 @@ func (x Expr) Has(data any) bool {
 				end = tf[1]
 			}
 			if 2 < len(tf) {
-				step = tf[2]
+				step = boundStep(tf[2])
 				if step == 0 {
 					continue
 				}
